@@ -160,6 +160,9 @@ def fault_scenarios(cases, prop):
     return out
 
 BAD = {"sunk-then-fail": ("AS{asn} AND AS-MISSING{k}", "sunk"), "unknown-as-set": ("AS-MISSING{k}", None), "error-E": ("AS-ERR{k}", "E"), "error-F": ("AS-ERR{k}", "F"),
+       # the unsupported construct is not in the policy's own expression but in the filter-set it names
+       "fset-regex": ("FLTR-UNSUP-RE{k}", "fset:<^AS65001 .* AS65002$>"), "fset-peeras": ("FLTR-UNSUP-PA{k} OR AS-NOBODY{k}", "fset:PeerAS"),
+       "fset-attr": ("FLTR-UNSUP-AT{k}", "fset:community(65000:1)"),
        "peeras": ("PeerAS", None), "aspath-regex": ("<^AS65000 .* AS65001$>", None), "attr-match": ("community(65000:1)", None)}
 
 def bad_policy(irr, cls, k):
@@ -172,6 +175,9 @@ def bad_policy(irr, cls, k):
         irr.db["errors"][f"!gAS{asn}"] = "F"; irr.db["errors"][f"!6AS{asn}"] = "F"
         return t.format(asn=asn, k=k), "fail"
     expr = t.format(k=k)
+    if err and err.startswith("fset:"):
+        irr.db["filter_sets"][expr.split()[0]] = err[5:]
+        return expr, "unsup"
     if err:
         irr.db["errors"][f"!i{expr},1"] = err
     return expr, ("unsup" if cls in ("peeras", "aspath-regex", "attr-match") else "fail")
@@ -353,6 +359,27 @@ def shape_scenarios(cases, prop):
                     "runs": [{"running": running, "irr": irr.db, "faults": [], "repeat": False,
                               "expect": {"prop": prop, "c16": True, "policies": pol}}],
                     "meta": dict(sh, family="shape", sel=c["sel"])})
+    return out
+
+def dupname_scenarios(prop):
+    """C16: two statements that both qualify as managed carry the same name (written the same way, or differently with
+    the same meaning).  Which expression the name stands for cannot be told: nothing may be installed under it."""
+    out = []
+    for k, (n1, n2) in enumerate([("twice", "twice"), ("a&amp;b", "a&#38;b"), ("x-1", "x-&#49;")]):
+        irr = Irr()
+        e1 = irr.asset_with(["a"], ["c"]); e2 = irr.asset_with(["b"], []); ctl = irr.asset_with(["d"], [])
+        # the fake router writes names escaped: give it the name as it is meant (decoded) - both statements get the same
+        import html
+        name = html.unescape(n1)
+        assert html.unescape(n2) == name
+        running = [stmt("control", f"/* bgpfu-fltr: {ctl} */"), stmt(name, f"/* bgpfu-fltr: {e1} */"), stmt("between", None, body="terms+reject"),
+                   stmt(name, f"/* bgpfu-fltr: {e2} */")]
+        pol = {name: exp(False, True, "none", why="two managed statements with one name"),
+               "control": exp(True, True, "ok", ["d"], [], ctl, "control"), "between": exp(False, False, "none", why="plain")}
+        out.append({"case": f"{prop}-dup{k}", "instance": "bgpfu", "eph0": [],
+                    "runs": [{"running": running, "irr": irr.db, "faults": [], "repeat": False,
+                              "expect": {"prop": prop, "c16": False, "ambiguous": True, "policies": pol}}],
+                    "meta": {"family": "dupname", "names": [n1, n2]}})
     return out
 
 def shapehist_scenarios(histories, per_router, prop):
@@ -618,7 +645,8 @@ def big_scenarios(prop):
     for n in (1000, 1100):
         even, odd = list(range(0, 2 * n, 2)), list(range(1, 2 * n, 2))
         # (third step: every IPv4 range replaced - 2n changes in one update - while the IPv6 family empties)
-        steps = [(v4(even), v6(even[: n // 2])), (v4(odd), v6(odd[: n // 2])), (v4(even), []), (v4(odd[:3]), []), ([], [])]
+        # (fourth step: all but three of the ranges withdrawn, the three that stay were there before)
+        steps = [(v4(even), v6(even[: n // 2])), (v4(odd), v6(odd[: n // 2])), (v4(even), []), (v4(even[:3]), []), ([], [])]
         runs = []
         for k, (p4, p6) in enumerate(steps + [steps[-1]]):
             irr = Irr(); running = []; policies = {}
